@@ -11,7 +11,9 @@ NS_TRUST = ['AST -> script text printer and s-expression reader/writer of the ha
             'variables and metadata are typed values rendered to the strings the JSON API carries; malformed strings (NewValueFromString parse errors) are only explored, not modelled',
             'resource limits of the compiler (65536 resources, 32768 variables) are not modelled']
 NS_NOTE = ('Trusted: Coq kernel, extraction, OCaml glue, Go harness (generator + AST printer). The theorems are about Machine/Sem.v, an AST-level big-step semantics written to mirror '
-           'compiler.Compile + vm.Machine; the bytecode VM and the compiler are NOT separately modelled (no Vm.v/Compile.v: stretch goal not reached), so "machine = Sem" rests on the differential run.')
+           'compiler.Compile + vm.Machine, AND about the bytecode layer: Machine/Compile.v (compiler: instructions, concrete resource table, needed balances), Machine/Vm.v + VmRun.v (the VM and the '
+           'ParseVariablesJSON / ResolveResources / ResolveBalances / Execute sequence) with the theorem vm_run = Sem.run for every program, variables and store (Machine/RunCorrect.v). '
+           'That Compile.v/Vm.v are the real compiler/VM rests on the tie nsbc (bytes, resources, needed balances equal on every generated program; model VM on the real bytecode = real result).')
 
 
 def ns_tie(kinds, quick=4000, thorough=200000, extra=None, name='TIE-C ns'):
@@ -19,7 +21,8 @@ def ns_tie(kinds, quick=4000, thorough=200000, extra=None, name='TIE-C ns'):
 
 
 PROPS['C22'] = dict(
-    target='Props/C22', theorems=['C22_send', 'C22_balances', 'C22_send_statement', 'C22_send_all_statement'],
+    target='Props/C22', theorems=['C22_send', 'C22_balances', 'C22_send_statement', 'C22_send_all_statement', 'C22_machine_refines_sem_code', 'C22_statement_code',
+              'C22_machine_refines_sem', 'C22_machine_send', 'C22_machine_balances'],
     ties=[ns_tie(['C22']), ns_tie(['C22'], quick=2500, thorough=100000, extra=['-profile', 'single'], name='TIE-C ns single-send')],
     rule=NS_RULE, trusted=NS_TRUST, level_note=NS_NOTE,
     explanation='C22_send (all programs, variables, stores; structural induction over sources and destinations, no depth bound): per send statement the postings are non-negative, all in the asset the '
@@ -32,7 +35,7 @@ PROPS['C22'] = dict(
                'extracted model; monitors recompute sums/balances from the implementation output only.')
 
 PROPS['C28'] = dict(
-    target='Props/C28', theorems=['C28_wellformed', 'C28_environment_valid'],
+    target='Props/C28', theorems=['C28_wellformed', 'C28_environment_valid', 'C28_machine_wellformed'],
     ties=[ns_tie(['C28'], quick=3000, extra=['-profile', 'edge'], name='TIE-C ns lexer-edge'),
           dict(name='TIE-C nslex', vh='nslex', model='nslex', n=dict(quick=20000, thorough=1000000), kinds=['C28'])],
     rule=NS_RULE + '; profile edge: half of the statements use literal assets at the edge of the lexer rule (USD//2, 12A, A/1234567, /, 19-letter names, 9, U/); nslex: random strings over [AZaz09_-:/ .U1] + fixed edge cases through '
@@ -61,25 +64,31 @@ PROPS['C26'] = dict(
                '(no model of the third-party interpreter). Known disagreements on `kept` are reported as known findings.')
 
 PROPS['C27'] = dict(
-    target='Props/C27', theorems=['C27_no_panic', 'C27_statements_no_panic', 'C27_no_partial'],
+    target='Props/C27', theorems=['C27_no_panic', 'C27_statements_no_panic', 'C27_no_partial', 'C27_vm_no_panic_code', 'C27_vm_fuel',
+              'C27_vm_no_panic', 'C27_vm_no_panic_run', 'C27_vm_stack_empty'],
     ties=[ns_tie(['C27'], quick=3000, name='TIE-C ns'),
           ns_tie(['C27'], quick=1500, thorough=50000, extra=['-profile', 'nilbal'], name='TIE-C ns several balance() variables'),
           dict(name='TIE-C ns adapters (no partial result)', vh='ns', model='ns', n=dict(quick=1500, thorough=50000), args=dict(all=['-c26', '1']), kinds=['C27']),
+          dict(name='TIE-C nslex (portion texts)', vh='nslex', model='nslex', n=dict(quick=8000, thorough=1000000), kinds=['C27']),
           dict(name='EXPLORE nsfront (unmodelled ANTLR front end)', vh='nsfront', model=None, n=dict(quick=6000, thorough=600000), kinds=['C27'])],
     rule=NS_RULE + '; profile nilbal: every program with a balance() variable gets a second one, mostly on the same account; nsfront (exploration of the unmodelled front end, labelled as such): per run 1/3 byte/token-level mutants of generated programs, '
-         '1/3 random token sequences, 1/3 arbitrary byte strings into compiler.Compile and, when they compile, into the machine; only panics and >5 s hangs are reported; the adapters tie also checks that an error never comes with a non-nil result',
+         '1/3 random token sequences, 1/3 arbitrary byte strings into compiler.Compile and, when they compile, into the machine; only panics and >5 s hangs are reported; '
+         'portions: script literals, `portion` variable values and metadata-sourced portions include degenerate texts (1/0, 0/0, 7 / 00, 0/5, 05/010, 1 /2, 3/2, 150%, 0%, 100.0%, .5%, 30-digit terms), read on the model side by Lex.parse_portion; '
+         'nslex also runs machine.ParsePortionSpecific under recover() on portion-like strings over [0-9/ %.] against Lex.parse_portion (a panic is a violation); the adapters tie also checks that an error never comes with a non-nil result',
     trusted=NS_TRUST, level_note=NS_NOTE,
     explanation='Sem.run is a total function with an explicit Panic outcome where Go would dereference a nil *MonetaryInt. C27_no_panic: NO program, variable assignment or store makes it panic (invariant: after ResolveResources/ResolveBalances '
                 'no variable holds a nil amount; then no-Panic by mutual structural induction); C27_no_partial: an error outcome carries no postings (on the Go side the monitor checks result == nil on error for both adapters). '
                 'The model follows the repaired code (fixes/01: every balance() variable is assigned; former known finding KF-C27-nil-balance-panic, now "fixed"). '
-                'Gaps: panics of the bytecode VM that an AST-level semantics cannot express (pop[T] type assertion, BUMP index, "stack not empty") are covered only by the differential run under recover(), not by a theorem (no Vm.v/Compile.v); '
-                'the byte-string front end is exploration only.',
+                'Panics of the bytecode VM that an AST-level semantics cannot express (pop[T] type assertion, stack underflow, BUMP index, default branches, type assertions in ResolveResources/ResolveBalances, "stack not empty") '
+                'are explicit Panic outcomes of Vm.v/VmRun.v and C27_vm_no_panic proves that NO compiled program reaches one, for any variables and store (C27_vm_stack_empty: the stack is empty at the end; C27_vm_fuel: one tick per instruction suffices). '
+                'Portion texts (script literals, variable values, metadata) are read by Lex.parse_portion, tied to machine.ParsePortionSpecific incl. zero denominators (error, never a panic); known finding KF-C27-portion-octal. '
+                'Gap: the byte-string front end (ANTLR) is exploration only.',
     technique='Coq proof (environment invariant + no-Panic by mutual structural induction over the AST) + differential run under recover()/timeout + front-end exploration',
-    level_text='Full at AST level: for every program and every input the semantics never panics and an error carries no result. Stack-discipline panics of the bytecode VM are only tested (thousands of generated programs per run '
-               'under recover()), and the ANTLR front end is explored with mutants/byte strings.')
+    level_text='Full at AST level and at bytecode level: for every program and every input neither the semantics nor the compiled program on the bytecode VM (typed pops, BUMP, stack-empty check, resource resolution) ever panics, '
+               'and an error carries no result. The correspondence Compile.v/Vm.v = real compiler/VM is a tie (byte-for-byte on thousands of programs per run); the ANTLR front end is explored with mutants/byte strings.')
 
 PROPS['C23'] = dict(
-    target='Props/C23', theorems=['C23_bound', 'C23_no_overdraft', 'C23_withdraw_all', 'C23_untracked_is_error'],
+    target='Props/C23', theorems=['C23_bound', 'C23_no_overdraft', 'C23_withdraw_all', 'C23_untracked_is_error', 'C23_machine_bound', 'C23_machine_no_overdraft'],
     ties=[ns_tie(['C23'], quick=5000, name='TIE-C ns')],
     rule=NS_RULE + '; monitor: for every bounded source occurrence (account value, asset) that is not world and not declared unbounded anywhere in the program: initial + net postings >= min(initial, -max declared bound)',
     trusted=NS_TRUST, level_note=NS_NOTE,
@@ -98,3 +107,20 @@ if 'C25' in PROPS:
     PROPS['C25']['explanation'] = PROPS['C25']['explanation'] + (' Machine side (C25_machine_script, Machine/TxScript.v): Sem.run on the script TxToScriptData generates yields exactly the submitted postings iff '
         'Core.feasible succeeds and insufficient funds otherwise, for any injective variable naming; tie nstx: 1-8 postings over 5 accounts incl. world x 4 assets (USD_X is not lexable as a literal: variables only), zero and >2^64 amounts, '
         'negative balances, 20% force, through the REAL TxToScriptData + compiler + VM vs the extracted model; monitor: independent in-order walk.')
+
+
+# ---- the bytecode layer: model compiler = real compiler byte for byte; model VM on the real bytecode = real machine
+NSBC_TIE = dict(name='TIE-C nsbc (bytecode: compiler bytes/resources/needed balances, VM on real bytecode)', vh='nsbc', model='nsbc',
+                n=dict(quick=3000, thorough=150000), kinds=['C27'])
+NSBC_TEXT = (' Bytecode layer: Machine/Vm.v (the instruction set of vm/program with Panic where Go panics), Machine/Compile.v (gen + assign). Tie nsbc: for every generated program the REAL compiler.Compile output '
+             '(instruction bytes, resource table, needed balances) equals the model compiler\'s, and the model VM run on the REAL bytecode equals the real machine\'s result. '
+             'Theorems, for EVERY program / variables / store (no fragment restriction): RunCorrect.vm_run_correct = C22_machine_refines_sem: compile (check, gen, address assignment) followed by ParseVariablesJSON, ResolveResources, '
+             'ResolveBalances and Execute on the bytecode VM yields exactly the outcome of Sem.run (error class, postings in order, metadata, tracked balances before/after); C27_vm_no_panic: no compiled program reaches a Panic of the VM '
+             '(typed pop, underflow, BUMP range, nil amount, default branch, resolution type assertions, stack not empty); C22_machine_send/_balances, C23_machine_bound/_no_overdraft, C28_machine_wellformed: the C22/C23/C28 theorems '
+             'stated of the compiled program on the VM. Proof structure: stack-effect equations per compile function (CompileCorrect.v), address assignment (AssignCorrect.v), resource well-typedness (GenWf.v), '
+             'resolution of the table incl. the vars block and balance() assignment (ResolveCorrect.v, RunCorrect.v).')
+for _p in ('C22', 'C27'):
+    PROPS[_p]['ties'] = PROPS[_p]['ties'] + [NSBC_TIE]
+    PROPS[_p]['explanation'] = PROPS[_p]['explanation'] + NSBC_TEXT
+PROPS['C23']['explanation'] += (' C23_machine_bound / C23_machine_no_overdraft: the same of the compiled program on the bytecode VM (Compile.v + Vm.v + VmRun.v), via RunCorrect.vm_run_correct (vm_run = Sem.run for every program).')
+PROPS['C28']['explanation'] += (' C28_machine_wellformed: the same of the compiled program on the bytecode VM (Compile.v + Vm.v + VmRun.v), via RunCorrect.vm_run_correct (vm_run = Sem.run for every program).')
